@@ -38,9 +38,13 @@ impl SimulationBoundary {
             HalfSpace::new(DVec3::NEG_Z, anchor + width, None, None),
         ];
 
+        // The integer grid must contain the box itself, all periodic images (already part of
+        // the tripled box) *and* the mirror images of the generators through the walls, which
+        // lie in [anchor - width, anchor + 2 width] (both ends included), strictly inside
+        // the half open range [1, 2) after rescaling.
         Self {
-            anchor: anchor - width,
-            inverse_width: 1. / (3. * width),
+            anchor: anchor - 1.5 * width,
+            inverse_width: 1. / (4. * width),
             dimensionality,
             clipping_planes,
         }
